@@ -6,6 +6,7 @@ import FxVerif.Model.Util
 ops (all numbers decimal; lists comma separated, `-` = empty):
   reset <threshold> <multiple> <slashFracMantissa> [<chain> <signedWindow> <nOracles>]
   claim <wrapperBridger> <innerBridger> <nonce> <hashId> <kind: p | c | r | o | e | s:<extIds> | x | x:<extIds>> <extHeight>
+  tx <slashed> <oracleSetReq> <bond … | adddel … | unbond … | nop>   the registry message as a signed transaction + that block's end blocker
   txclaim <wrapperBridger> <innerBridger> <nonce> <hashId> <kind> <extHeight> <slashed> <oracleSetReq>   the claim as a signed transaction + that block's end blocker
   bond <oracle> <bridger> <ext> <amount> <dep>
   adddel <oracle> <amount> <dep>
@@ -147,6 +148,24 @@ def stepLine (d : DS) (line : String) : DS × String :=
       let ev := if added.isEmpty then "-" else "+".intercalate (added.map fun p => s!"{p.1}/{p.2}")
       ({ d with cur := s' }, showOut o ++ " " ++ showState s' ++ " ev=" ++ ev)
     | _, _, _, _, _, _, _ => (d, "bad-op")
+  | "tx" :: sl :: osr :: rest =>
+    -- a registry message delivered as a signed transaction in a block of its own, then that block's end blocker;
+    -- `nop`: the transaction was refused by the ante handler (not signed by the oracle account)
+    match natList? sl, bool? osr with
+    | some sl, some osr =>
+      let r : Option (State × String) :=
+        if rest == ["nop"] then some (s, "err:unauthorized")
+        else match parseOp rest with
+          | some (.bond o b e a dd) => some ((step s (.bond o b e a dd)).1, showOut (step s (.bond o b e a dd)).2)
+          | some (.addDelegate o a dd) => some ((step s (.addDelegate o a dd)).1, showOut (step s (.addDelegate o a dd)).2)
+          | some (.unbond o u bal dd) => some ((step s (.unbond o u bal dd)).1, showOut (step s (.unbond o u bal dd)).2)
+          | _ => none
+      match r with
+      | some (s1, o) =>
+        let (s', _) := endBlockStep s1 sl osr
+        ({ d with cur := s' }, o ++ " " ++ showState s' ++ " ev=-")
+      | none => (d, "bad-op")
+    | _, _ => (d, "bad-op")
   | ws =>
     match parseOp ws with
     | some op =>
